@@ -77,6 +77,11 @@ const MUTATIONS: &[&str] = &[
     "sig-bit",
     "sig-swap",
     "id-existing",
+    // distinguished id values a sentinel comparison could let through
+    "id-zero",
+    "id-ones",
+    "id-parent",
+    "id-graph",
 ];
 
 struct World {
@@ -162,6 +167,23 @@ fn mutate(
             let mut b = idb(c.id);
             b[rng.usize(32)] ^= 1 << rng.below(8);
             c.id = CmdId::from_bytes(b);
+        }
+        "id-zero" => {
+            c.id = CmdId::from_bytes([0u8; 32]);
+            note = json!("the all-zero (default) id");
+        }
+        "id-ones" => {
+            c.id = CmdId::from_bytes([0xffu8; 32]);
+            note = json!("the all-ones id");
+        }
+        "id-parent" => {
+            let Prior::Single(a) = cmd.parent else { return None };
+            c.id = a.id;
+            note = json!("the id of the command's own parent");
+        }
+        "id-graph" => {
+            c.id = CmdId::from_bytes(*w.graph.as_array());
+            note = json!("the graph id (id of the init command)");
         }
         "id-existing" => {
             let cands: Vec<&[u8; 32]> = dst_snap.cmds.keys().filter(|id| **id != idb(cmd.id)).collect();
